@@ -191,7 +191,8 @@ theorem start_of_dinv' {c : Cfg} {d : Store} (hd : DInv c d) :
       (∀ k, DInv c (d.applyPrefix k ws)) ∧ (∀ k, Adv c d (d.applyPrefix k ws)) ∧
       (∀ s, d.state = some s → n.lastState = s ∧ n.store.height = s.lastHeight ∧
         ∃ w1 w2, ws = resumeWrites c d s w1 w2) ∧
-      (∀ h b, SW.saveBlock h b ∈ ws → h = c.initialHeight ∧ b = genesisBlock c) := by
+      (∀ h b, SW.saveBlock h b ∈ ws → h = c.initialHeight ∧ b = genesisBlock c) ∧
+      (∀ st, SW.updateState st ∉ ws) := by
   obtain ⟨⟨w1, hw1⟩, ⟨w2, hw2⟩⟩ := hd.wm
   cases hst : d.state with
   | none =>
@@ -224,7 +225,7 @@ theorem start_of_dinv' {c : Cfg} {d : Store} (hd : DInv c d) :
       simp only
       rw [← hstore]
       simp [genesisState, restartWrites, wmWrite, wmRaise, hd2]
-    refine ⟨_, _, hstart, ?_, Or.inr ⟨by rw [p1, hst], rfl⟩, ⟨⟨x1, hx1⟩, ⟨x2, hx2⟩⟩, rfl, ?_, ?_, ?_, ?_⟩
+    refine ⟨_, _, hstart, ?_, Or.inr ⟨by rw [p1, hst], rfl⟩, ⟨⟨x1, hx1⟩, ⟨x2, hx2⟩⟩, rfl, ?_, ?_, ?_, ?_, ?_⟩
     · exact live_genesis hd.ihPos hh hg (fun h hgt => by
         show (d.applyAll (restartWrites c d w1 w2)).getBlock h = none
         rw [p4 h (by omega)]; exact habove h hgt) rfl
@@ -243,6 +244,10 @@ theorem start_of_dinv' {c : Cfg} {d : Store} (hd : DInv c d) :
       have hgw := hgen _ hm
       cases hgw with
       | genesis => exact ⟨rfl, rfl⟩
+      | wm w hw => obtain ⟨k, x, hkx⟩ := hw; cases hkx
+    · intro st hm
+      have hgw := hgen _ hm
+      cases hgw with
       | wm w hw => obtain ⟨k, x, hkx⟩ := hw; cases hkx
   | some s =>
     obtain ⟨hge, hle, hl⟩ := hd.withState s hst
@@ -278,7 +283,7 @@ theorem start_of_dinv' {c : Cfg} {d : Store} (hd : DInv c d) :
       rw [← hstore]
       simp [resumeWrites, wmWrite, wmRaise]
     rw [hstore'] at f1 f2 f3 f4
-    refine ⟨_, _, hstart, ?_, Or.inl ⟨by rw [f4, r3, hst], hge⟩, f1.wm, rfl, ?_, ?_, ?_, ?_⟩
+    refine ⟨_, _, hstart, ?_, Or.inl ⟨by rw [f4, r3, hst], hge⟩, f1.wm, rfl, ?_, ?_, ?_, ?_, ?_⟩
     · exact hl.of_same f2 f3 rfl
     · intro k
       unfold Store.applyPrefix resumeWrites
@@ -316,13 +321,22 @@ theorem start_of_dinv' {c : Cfg} {d : Store} (hd : DInv c d) :
         · cases hm
       · obtain ⟨k, x, hkx⟩ := wmWrite_isWm _ _ _ _ hm; cases hkx
       · obtain ⟨k, x, hkx⟩ := wmWrite_isWm _ _ _ _ hm; cases hkx
+    · intro st hm
+      simp only [resumeWrites, List.mem_append] at hm
+      rcases hm with (hm | hm) | hm
+      · unfold setHeightW at hm
+        split at hm
+        · simp at hm
+        · cases hm
+      · obtain ⟨k, x, hkx⟩ := wmWrite_isWm _ _ _ _ hm; cases hkx
+      · obtain ⟨k, x, hkx⟩ := wmWrite_isWm _ _ _ _ hm; cases hkx
 
 theorem start_of_dinv {c : Cfg} {d : Store} (hd : DInv c d) :
     ∃ n ws, start c d = .ok (n, ws) ∧ Live c n ∧ Synced c n ∧ WmOK n.store ∧ n.store = d.applyAll ws ∧
       (∀ k, DInv c (d.applyPrefix k ws)) ∧ (∀ k, Adv c d (d.applyPrefix k ws)) ∧
       (∀ s, d.state = some s → n.lastState = s ∧ n.store.height = s.lastHeight ∧
         ∃ w1 w2, ws = resumeWrites c d s w1 w2) := by
-  obtain ⟨n, ws, a1, a2, a3, a4, a5, a6, a7, a8, _⟩ := start_of_dinv' hd
+  obtain ⟨n, ws, a1, a2, a3, a4, a5, a6, a7, a8, _, _⟩ := start_of_dinv' hd
   exact ⟨n, ws, a1, a2, a3, a4, a5, a6, a7, a8⟩
 
 end Producer
